@@ -20,7 +20,7 @@ use serde::{Deserialize, Serialize};
 use serde_json::json;
 use vhost_user_backend::VringT;
 
-use crate::daemon_fx::{sock_path, thread_states, BeCfg, Fx, VMutex, VRw, GM};
+use crate::daemon_fx::{new_eventfd, sock_path, thread_states, BeCfg, Fx, VMutex, VRw, GM};
 use crate::engine::Ctx;
 use crate::rawclient::RawClient;
 use crate::rawpeer;
@@ -46,6 +46,8 @@ pub enum Between {
     PeerClose,
     DaemonError,
     SecondCaller,
+    /// like SecondCaller, and wait() is called (and must return) while the first caller is still stalled between its two steps
+    SecondCallerThenWait,
     /// wait() is started while a caller sits between the two steps of its shutdown request
     WaitMeanwhile,
     /// wait() is already blocked when the shutdown request is issued (main thread waits, another thread shuts down)
@@ -60,6 +62,9 @@ pub struct ShutCase {
     pub between: Between,
     pub rwlock: bool,
     pub workers: u8,
+    /// the (sequential) shutdown requests go through VhostUserDaemon::request_shutdown() instead of a ShutdownHandle
+    #[serde(default)]
+    pub via_daemon: bool,
 }
 
 #[derive(Serialize, Deserialize, Debug, Clone, Hash, PartialEq, Eq)]
@@ -255,6 +260,32 @@ fn run_shut_generic<V: VringT<GM> + Clone + Send + Sync + 'static>(ctx: &mut Ctx
                     let h = handle.clone();
                     bounded("second shutdown caller", move || h.shutdown())?;
                 }
+                Between::SecondCallerThenWait => {
+                    let h = handle.clone();
+                    bounded("second shutdown caller", move || h.shutdown())?;
+                    // the second caller's request is complete: a following wait() returns although the first caller is
+                    // still stalled between setting the flag and shutting the socket down.  (Stalls of the daemon thread
+                    // that the harness itself imposed for the position are lifted first; only the caller stays parked.)
+                    for name in ["daemon.before_read", "daemon.after_request", "daemon.before_final_shutdown"] {
+                        sched.disarm(name);
+                    }
+                    if let Some(p) = parked_daemon.take() {
+                        sched.release(p.id);
+                    }
+                    for p in sched.parked().into_iter().filter(|p| p.name.starts_with("daemon.")) {
+                        sched.release(p.id);
+                    }
+                    fx.be.block_set_config.store(false, Ordering::SeqCst);
+                    let h = start_wait(&mut fx)?;
+                    let t0 = Instant::now();
+                    while !h.is_finished() {
+                        if t0.elapsed() > BOUND {
+                            return Err(format!("wait() following the completed shutdown request of a second caller did not return within {}s while the first caller is stalled between its two steps", BOUND.as_secs()));
+                        }
+                        std::thread::sleep(Duration::from_micros(200));
+                    }
+                    early_wait = Some(h);
+                }
                 Between::WaitMeanwhile => {
                     let h = start_wait(&mut fx)?;
                     let t0 = Instant::now();
@@ -288,6 +319,11 @@ fn run_shut_generic<V: VringT<GM> + Clone + Send + Sync + 'static>(ctx: &mut Ctx
             }
         } else {
             for _ in 0..ncall {
+                if c.via_daemon && fx.daemon.is_some() {
+                    fx.daemon.as_ref().unwrap().request_shutdown();
+                    ctx.class("request_via_daemon_object");
+                    continue;
+                }
                 let h = handle.clone();
                 bounded("shutdown()", move || h.shutdown())?;
             }
@@ -356,7 +392,7 @@ pub fn run_shut(ctx: &mut Ctx, c: &ShutCase) -> Result<(), String> {
     }
 }
 
-fn request_bytes(code: u32) -> (Vec<u8>, bool) {
+pub fn request_bytes(code: u32) -> (Vec<u8>, bool) {
     // (message, has a reply without NEED_REPLY)
     match code {
         fe::GET_FEATURES => (spec::request(code, false, &[]), true),
@@ -452,6 +488,12 @@ fn run_cut_generic<V: VringT<GM> + Clone + Send + Sync + 'static>(ctx: &mut Ctx,
                     if cut == 0 { "before sending anything".to_string() } else if cut < msg.len() { format!("after {cut} of {} bytes of a request", msg.len()) } else { "after a complete request without reply".into() }
                 ));
             }
+            // a stream that ends inside a message is not a clean disconnect (the daemon is a receiver too)
+            if let Err(e) = &r {
+                if cut > 0 && cut < msg.len() && e.contains("Disconnected") {
+                    return Err(format!("the peer closed after {cut} of {} bytes of a request and wait() reports a clean disconnect: {e}", msg.len()));
+                }
+            }
             ctx.class(if r.is_ok() { "wait_ok" } else { "wait_err" });
             restart_works(&mut fx)?;
         }
@@ -522,6 +564,10 @@ pub struct DropCase {
     pub mid_message: bool,
     pub workers: u8,
     pub rwlock: bool,
+    /// a custom event source of worker 0 became ready before the drop and the device's handler fails for it
+    /// every time without consuming it
+    #[serde(default)]
+    pub failing_source: bool,
 }
 
 fn run_drop_generic<V: VringT<GM> + Clone + Send + Sync + 'static>(ctx: &mut Ctx, c: &DropCase) -> Result<(), String> {
@@ -533,8 +579,22 @@ fn run_drop_generic<V: VringT<GM> + Clone + Send + Sync + 'static>(ctx: &mut Ctx
     if c.mid_message {
         rawpeer::send_all(peer.as_raw_fd(), &spec::request(fe::SET_FEATURES, false, &spec::b_u64(0))[..14], &[]).map_err(|e| e.to_string())?;
     }
+    let failing = new_eventfd();
+    if c.failing_source {
+        let id = fx.be.barrier_id() + 1;
+        let before = fx.be.handle_event_calls.load(std::sync::atomic::Ordering::SeqCst);
+        fx.be.fail_event_id.store(id, std::sync::atomic::Ordering::SeqCst);
+        fx.daemon.as_ref().unwrap().register_listener(0, failing.as_raw_fd(), id).map_err(|e| format!("register_listener({id}): {e}"))?;
+        failing.write(1).map_err(|e| e.to_string())?;
+        // the handler has failed at least once before the daemon is dropped
+        let t0 = Instant::now();
+        while fx.be.handle_event_calls.load(std::sync::atomic::Ordering::SeqCst) == before && t0.elapsed() < BOUND {
+            std::thread::sleep(Duration::from_micros(200));
+        }
+        ctx.class("drop_with_failing_event_source");
+    }
     let d = fx.daemon.take().unwrap();
-    bounded("drop(daemon)", move || drop(d))?;
+    bounded(if c.failing_source { "drop(daemon) with an event source whose handler keeps failing" } else { "drop(daemon)" }, move || drop(d))?;
     let t0 = Instant::now();
     while thread_states().len() > base_threads && t0.elapsed() < BOUND {
         std::thread::sleep(Duration::from_micros(500));
@@ -594,7 +654,7 @@ pub fn run(ctx: &mut Ctx) {
                 if callers == 1 && concurrent {
                     continue;
                 }
-                for between in [Between::None, Between::PeerClose, Between::DaemonError, Between::SecondCaller, Between::WaitMeanwhile, Between::WaitFirst] {
+                for between in [Between::None, Between::PeerClose, Between::DaemonError, Between::SecondCaller, Between::SecondCallerThenWait, Between::WaitMeanwhile, Between::WaitFirst] {
                     // events that need a live peer make no sense once the peer is gone
                     if matches!(pos, Pos::AfterPeerGone | Pos::HoldBeforeFinalShutdown) && matches!(between, Between::PeerClose | Between::DaemonError) {
                         continue;
@@ -608,7 +668,10 @@ pub fn run(ctx: &mut Ctx) {
                         continue;
                     }
                     k += 1;
-                    space.push(ShutCase { pos, callers, concurrent, between, rwlock: k % 2 == 0, workers: (k % 3) as u8 + 1 });
+                    space.push(ShutCase { pos, callers, concurrent, between, rwlock: k % 2 == 0, workers: (k % 3) as u8 + 1, via_daemon: false });
+                    if between == Between::None && !concurrent {
+                        space.push(ShutCase { pos, callers, concurrent, between, rwlock: k % 2 == 1, workers: (k % 3) as u8 + 1, via_daemon: true });
+                    }
                 }
             }
         }
@@ -639,6 +702,6 @@ pub fn run(ctx: &mut Ctx) {
 
     ctx.enumerate("request_errors", (0..5u8).map(|kind| ErrCase { kind }), |ctx, c| run_err(ctx, c));
 
-    let drops: Vec<DropCase> = (0..12u8).map(|k| DropCase { mid_message: k % 2 == 1, workers: k % 3 + 1, rwlock: k % 4 < 2 }).collect();
+    let drops: Vec<DropCase> = (0..24u8).map(|k| DropCase { mid_message: k % 2 == 1, workers: k % 3 + 1, rwlock: k % 4 < 2, failing_source: k >= 12 }).collect();
     ctx.enumerate("drop_while_connected", drops, |ctx, c| run_drop(ctx, c));
 }
